@@ -7,7 +7,14 @@
 //!   for the corpus and on cmr10 before it is used;
 //! * `ligkern` (4 letters, boundary character anywhere, padding), `ligkern_exact3` (3 letters, the
 //!   ≤ 12-pair sub-space), `ligkern_dense2` (2 letters): generated programs × words;
-//! * `cmr10_words`: compiled cmr10 against the interpreter on all short words over 12 characters.
+//! * `cmr10_words`: compiled cmr10 against the interpreter on all short words over 12 characters;
+//! * `corpus_words`: every TFM file of the repository's corpus whose lig/kern part TeX 573 accepts
+//!   (PLtoTF's layouts: redirect words, boundary words, boundary programs), compiled with
+//!   `compile_from_tfm_file`, against the interpreter on all words of 1-3 characters over windows of
+//!   8 characters taken from the font's lig/kern programs; loop verdicts compared as well.
+//!
+//! Every route also sends words through `boxworks_text::TextPreprocessorImpl::add_word` and compares
+//! the node list, and compares `Program::instructions_for_entrypoint` with the model's chain walk.
 
 use crate::engine::*;
 use crate::models::ligkern_interp::{self as li, Deviations, Glyph, Item, Limits, Outcome, RawFont};
@@ -29,8 +36,14 @@ const PAD_LEFT: u8 = b'z';
 const PAD_RIGHT: u8 = b'y';
 /// a character that can be inserted but has no program and occurs in no word
 const EXTRA: u8 = b'e';
-/// stands in for the last letter when `CaseSpec::high` is set: a character code above 127
+/// stands in for the last letter when `CaseSpec::high` is set: a character code above 127, or one
+/// of the two extreme codes (`CaseSpec::high_code`)
 const HIGH: u8 = 0xE9;
+const HIGH_CODES: [u8; 3] = [HIGH, 0x00, 0xFF];
+/// the boundary character outside the alphabet by `CaseSpec::outside_code`
+const OUTSIDE_CODES: [u8; 3] = [OUTSIDE, 0x00, 0xFF];
+/// design sizes by `CaseSpec::design`: 10pt, 12pt, 7.5pt, 17.28pt (fix_word, 2^-20 pt)
+const DESIGN_SIZES: [i32; 4] = [10 << 20, 12 << 20, 15 << 19, 18119393];
 
 fn text(word: &[u8]) -> String {
     word.iter().map(|b| *b as char).collect()
@@ -68,6 +81,7 @@ pub struct InstrSpec {
     pub op: OpSpec,
     /// 0..20. Inside a chain: 0..=15 continue, 16..=17 SKIP 1, 18 SKIP 2, 19 STOP.
     /// Last of a chain: 0..=15 STOP, 16..=18 fall through into the next chain, 19 SKIP 1.
+    /// 20..: SKIP 3 + (next - 20) % 38, i.e. SKIP 3..40, wherever the instruction stands.
     pub next: u8,
 }
 
@@ -80,6 +94,9 @@ pub enum LabelSpec {
     At(u16),
     /// the symbol has no program
     Absent,
+    /// the label stands in the padding block, this many instructions before its end (`Own` when
+    /// there is no padding block)
+    PadTail(u8),
 }
 
 #[derive(Clone, Copy, Debug, PartialEq, Eq, Serialize, Deserialize)]
@@ -96,6 +113,12 @@ pub struct PadSpec {
     /// the padding block stands in front of this chain
     pub before_chain: u8,
     pub len: u16,
+    /// 0: every instruction is `y kern (1..7)/64`, continue. 1: instruction j kerns by the distinct
+    /// amount (j+1)/1024 (so the kern array of the TFM route has more than 256 entries), from j = 200
+    /// on the right characters cycle through the letters and `y` (a label standing there makes
+    /// kerns with an index >= 256 observable), and every tenth instruction has SKIP 3..40.
+    #[serde(default)]
+    pub style: u8,
 }
 
 #[derive(Clone, Copy, Debug, PartialEq, Eq, Serialize, Deserialize)]
@@ -124,6 +147,24 @@ pub struct CaseSpec {
     #[serde(default)]
     pub via_pl: bool,
     pub words: Vec<(Vec<u8>, ModeSpec)>,
+    /// index into HIGH_CODES (only with `high`)
+    #[serde(default)]
+    pub high_code: u8,
+    /// index into OUTSIDE_CODES; falls back to `r` when that code is a letter of the alphabet
+    #[serde(default)]
+    pub outside_code: u8,
+    /// index into DESIGN_SIZES
+    #[serde(default)]
+    pub design: u8,
+    /// instruction number k kerns by an extra (kern_low * (k+1)) mod 2^12 fix_word units, so that
+    /// scaling by the design size rounds
+    #[serde(default)]
+    pub kern_low: u16,
+    /// one more word, of 7-40 letters (empty: none)
+    #[serde(default)]
+    pub long_word: Vec<u8>,
+    #[serde(default)]
+    pub long_mode: Option<ModeSpec>,
 }
 
 fn instr_strategy(nletters: u8, outside: bool, rich: bool) -> impl Strategy<Value = InstrSpec> {
@@ -134,15 +175,29 @@ fn instr_strategy(nletters: u8, outside: bool, rich: bool) -> impl Strategy<Valu
         1 => (-8i8..=8).prop_map(OpSpec::Kern),
         2 => (0u8..8, insert).prop_map(|(form, insert)| OpSpec::Lig { form, insert }),
     ];
-    (0..nr, op, 0u8..20).prop_map(|(right, op, next)| InstrSpec { right, op, next })
+    // SKIP 3..40 for about one instruction in sixteen (rich only)
+    let next = if rich { prop_oneof![15 => 0u8..20, 1 => 20u8..58].boxed() } else { (0u8..20).boxed() };
+    (0..nr, op, next).prop_map(|(right, op, next)| InstrSpec { right, op, next })
 }
 
-fn label_strategy() -> impl Strategy<Value = LabelSpec> {
-    prop_oneof![
-        16 => Just(LabelSpec::Own),
-        3 => any::<u16>().prop_map(LabelSpec::At),
-        1 => Just(LabelSpec::Absent),
-    ]
+fn label_strategy(pad: bool) -> BoxedStrategy<LabelSpec> {
+    if pad {
+        prop_oneof![
+            16 => Just(LabelSpec::Own),
+            3 => any::<u16>().prop_map(LabelSpec::At),
+            1 => Just(LabelSpec::Absent),
+            // the tail of the padding block, where the instruction number and the kern index exceed 255
+            5 => (0u8..100).prop_map(LabelSpec::PadTail),
+        ]
+        .boxed()
+    } else {
+        prop_oneof![
+            16 => Just(LabelSpec::Own),
+            3 => any::<u16>().prop_map(LabelSpec::At),
+            1 => Just(LabelSpec::Absent),
+        ]
+        .boxed()
+    }
 }
 
 fn mode_strategy() -> impl Strategy<Value = ModeSpec> {
@@ -159,38 +214,62 @@ pub fn case_strategy(letters: u8, rich: bool) -> impl Strategy<Value = CaseSpec>
             Just(letters),
             prop_oneof![2 => Just(RbSpec::Absent), 5 => (0u8..letters).prop_map(RbSpec::Inside)].boxed(),
             Just(None::<PadSpec>).boxed(),
-            prop_oneof![5 => Just(false), 1 => Just(true)].boxed(),
-            Just(false).boxed(),
+            // route: 0 direct, 1 pl::File, 2 TFM file
+            prop_oneof![4 => Just(0u8), 1 => Just(1u8), 1 => Just(2u8)].boxed(),
+            Just((false, 0u8, 0u8)).boxed(),
         )
     } else {
         (
             Just(letters),
             prop_oneof![2 => Just(RbSpec::Absent), 3 => (0u8..letters).prop_map(RbSpec::Inside), 3 => Just(RbSpec::Outside)].boxed(),
-            prop_oneof![12 => Just(None), 1 => (0u8..=letters, 230u16..300).prop_map(|(b, l)| Some(PadSpec { before_chain: b, len: l }))].boxed(),
-            prop_oneof![3 => Just(false), 1 => Just(true)].boxed(),
-            prop_oneof![7 => Just(false), 1 => Just(true)].boxed(),
+            prop_oneof![
+                12 => Just(None),
+                1 => (0u8..=letters, 230u16..330, prop_oneof![1 => Just(0u8), 3 => Just(1u8)]).prop_map(|(b, l, style)| Some(PadSpec { before_chain: b, len: l, style }))
+            ]
+            .boxed(),
+            prop_oneof![5 => Just(0u8), 1 => Just(1u8), 2 => Just(2u8)].boxed(),
+            // a letter with a code above 127 (0xE9, or the extreme codes 0x00 / 0xFF); code of the
+            // outside boundary character (r, 0x00, 0xFF)
+            (prop_oneof![6 => Just(false), 2 => Just(true)], prop_oneof![2 => Just(0u8), 1 => Just(1u8), 1 => Just(2u8)], prop_oneof![2 => Just(0u8), 1 => Just(1u8), 1 => Just(2u8)]).boxed(),
         )
     };
-    head.prop_flat_map(move |(letters, rb, pad, via_tfm, high)| {
+    head.prop_flat_map(move |(letters, rb, pad, route, (high, high_code, outside_code))| {
         let outside = rb == RbSpec::Outside;
         let n = letters as usize;
         (
             proptest::collection::vec(proptest::collection::vec(instr_strategy(letters, outside, rich), 0..=4), n + 1),
-            proptest::collection::vec(label_strategy(), n + 1),
+            proptest::collection::vec(label_strategy(pad.is_some()), n + 1),
             proptest::collection::vec((proptest::collection::vec(0..letters, 1..=6), mode_strategy()), 5),
+            // design size and kern low bits: half of the cases keep 10pt and exact multiples
+            (prop_oneof![2 => Just(0u8), 1 => 1u8..4], prop_oneof![1 => Just(0u16), 1 => 1u16..4096]),
+            // a long word for about one case in six; periodic (period 1-4) half of the time so that
+            // one rule chain is driven deep
+            prop_oneof![
+                10 => Just(vec![]),
+                1 => proptest::collection::vec(0..letters, 7..=40),
+                1 => (proptest::collection::vec(0..letters, 1..=4), 7usize..=40).prop_map(|(p, l)| (0..l).map(|i| p[i % p.len()]).collect::<Vec<u8>>()),
+            ],
+            mode_strategy(),
+            // a padded program is mostly sent through the TFM route: that is where entry points
+            // above 255 need redirection
+            prop_oneof![1 => Just(false), 4 => Just(true)],
         )
-            .prop_map(move |(chains, labels, words)| CaseSpec {
+            .prop_map(move |(chains, labels, words, (design, kern_low), long_word, long_mode, pad_tfm)| CaseSpec {
                 letters,
                 chains,
                 labels,
                 rb,
                 pad,
-                // a padded program is mostly sent through the TFM route: that is where entry
-                // points above 255 need redirection
-                via_tfm: via_tfm || (pad.is_some() && words[0].0[0] != 0),
+                via_tfm: route == 2 || (pad.is_some() && pad_tfm),
                 high,
-                via_pl: words[1].0[0] == 0 && words[1].1.right_boundary_override < 4,
+                via_pl: route == 1,
                 words,
+                high_code: if high { high_code } else { 0 },
+                outside_code: if outside { outside_code } else { 0 },
+                design,
+                kern_low,
+                long_mode: if long_word.is_empty() { None } else { Some(long_mode) },
+                long_word,
             })
     })
 }
@@ -200,24 +279,34 @@ pub struct Built {
     pub entrypoints: HashMap<Char, u16>,
     pub font: RawFont,
     pub letters: Vec<u8>,
+    /// the boundary character outside the alphabet (used or not)
+    pub outside: u8,
+    pub design_size: FixWord,
     pub shared_instruction: bool,
     pub uses_skip: bool,
+    /// largest SKIP amount of an instruction that some left symbol's program contains
+    pub max_skip: u8,
 }
 
-fn design_size() -> FixWord {
-    FixWord::ONE * 10
+fn design_size_of(spec: &CaseSpec) -> FixWord {
+    FixWord(DESIGN_SIZES[spec.design as usize % DESIGN_SIZES.len()])
 }
 
 pub fn build(spec: &CaseSpec) -> Built {
     let n = (spec.letters as usize).clamp(1, 4);
     let mut letters: Vec<u8> = LETTERS[..n].to_vec();
     if spec.high {
-        letters[n - 1] = HIGH;
+        letters[n - 1] = HIGH_CODES[spec.high_code as usize % 3];
+    }
+    let mut outside = OUTSIDE_CODES[spec.outside_code as usize % 3];
+    if letters.contains(&outside) {
+        outside = OUTSIDE;
     }
     let mut rights = letters.clone();
     if spec.rb == RbSpec::Outside {
-        rights.push(OUTSIDE);
+        rights.push(outside);
     }
+    let low = |k: usize| -> i32 { ((spec.kern_low as usize * (k + 1)) & 0xFFF) as i32 };
     let mut flat: Vec<Instruction> = vec![];
     let mut chain_start = vec![0usize; n + 1];
     let mut pad_start = None;
@@ -227,10 +316,24 @@ pub fn build(spec: &CaseSpec) -> Built {
                 pad_start = Some(flat.len());
                 let len = p.len.clamp(1, 400) as usize;
                 for j in 0..len {
-                    flat.push(Instruction {
-                        next_instruction: if j + 1 == len { None } else { Some(0) },
-                        right_char: Char(PAD_RIGHT),
-                        operation: Operation::Kern(FixWord(((j % 7) as i32 + 1) << 14)),
+                    flat.push(if p.style == 0 {
+                        Instruction {
+                            next_instruction: if j + 1 == len { None } else { Some(0) },
+                            right_char: Char(PAD_RIGHT),
+                            operation: Operation::Kern(FixWord(((j % 7) as i32 + 1) << 14)),
+                        }
+                    } else {
+                        Instruction {
+                            next_instruction: if j + 1 == len {
+                                None
+                            } else if j % 10 == 9 {
+                                Some(3 + ((j * 7) % 38) as u8)
+                            } else {
+                                Some(0)
+                            },
+                            right_char: Char(if j < 200 || j % (n + 1) == n { PAD_RIGHT } else { letters[j % (n + 1)] }),
+                            operation: Operation::Kern(FixWord((j as i32 + 1) << 10)),
+                        }
                     });
                 }
             }
@@ -239,7 +342,9 @@ pub fn build(spec: &CaseSpec) -> Built {
         let chain = spec.chains.get(i).map(|c| c.as_slice()).unwrap_or(&[]);
         for (j, ins) in chain.iter().enumerate() {
             let last = j + 1 == chain.len();
-            let next = if last {
+            let next = if ins.next >= 20 {
+                Some(3 + (ins.next - 20) % 38)
+            } else if last {
                 match ins.next % 20 {
                     0..=15 => None,
                     16..=18 => Some(0),
@@ -254,7 +359,7 @@ pub fn build(spec: &CaseSpec) -> Built {
                 }
             };
             let operation = match ins.op {
-                OpSpec::Kern(k) => Operation::Kern(FixWord((k as i32) << 16)),
+                OpSpec::Kern(k) => Operation::Kern(FixWord(((k as i32) << 16) + low(flat.len()))),
                 OpSpec::Lig { form, insert } => Operation::Ligature {
                     char_to_insert: Char(if insert as usize == n { EXTRA } else { letters[insert as usize % n] }),
                     post_lig_operation: FORMS[form as usize % 8],
@@ -284,6 +389,10 @@ pub fn build(spec: &CaseSpec) -> Built {
             LabelSpec::Own => Some(chain_start[i]),
             LabelSpec::At(p) => Some(pick_idx(p, total.max(1))),
             LabelSpec::Absent => None,
+            LabelSpec::PadTail(k) => match (pad_start, spec.pad) {
+                (Some(s), Some(p)) => Some(s + (p.len.clamp(1, 400) as usize).saturating_sub(1 + k as usize)),
+                _ => Some(chain_start[i]),
+            },
         };
         let Some(at) = at.filter(|a| *a < total) else { continue };
         if i == n {
@@ -301,7 +410,7 @@ pub fn build(spec: &CaseSpec) -> Built {
         right_boundary_char: match spec.rb {
             RbSpec::Absent => None,
             RbSpec::Inside(i) => Some(Char(letters[i as usize % n])),
-            RbSpec::Outside => Some(Char(OUTSIDE)),
+            RbSpec::Outside => Some(Char(outside)),
         },
         passthrough: Default::default(),
     };
@@ -311,6 +420,7 @@ pub fn build(spec: &CaseSpec) -> Built {
     // do two left symbols share an instruction?
     let mut owner: BTreeMap<usize, usize> = BTreeMap::new();
     let mut shared = false;
+    let mut max_skip = 0u8;
     for (li_, l) in font.lefts().into_iter().enumerate() {
         if l == Some(PAD_LEFT) {
             continue;
@@ -325,15 +435,17 @@ pub fn build(spec: &CaseSpec) -> Built {
                     shared = true;
                 }
             }
+            max_skip = max_skip.max(font.instructions()[k].next_instruction.unwrap_or(0));
         }
     }
-    Built { program, entrypoints, font, letters, shared_instruction: shared, uses_skip }
+    let design_size = design_size_of(spec);
+    Built { program, entrypoints, font, letters, outside, design_size, shared_instruction: shared, uses_skip, max_skip }
 }
 
-fn mode_of(m: ModeSpec, letters: &[u8]) -> (bool, Option<u8>) {
+fn mode_of(m: ModeSpec, letters: &[u8], outside: u8) -> (bool, Option<u8>) {
     let o = match m.right_boundary_override {
         6 | 7 => Some(letters[(m.right_boundary_override as usize) % letters.len()]),
-        8 => Some(OUTSIDE),
+        8 => Some(outside),
         _ => None,
     };
     (m.disable_left_boundary, o)
@@ -343,19 +455,21 @@ fn mode_of(m: ModeSpec, letters: &[u8]) -> (bool, Option<u8>) {
 // Driving the implementation
 
 fn impl_items(compiled: &CompiledProgram, word: &str, default_run: bool, disable_left: bool, rbo: Option<u8>) -> Result<Vec<RunItem>, String> {
-    const LIMIT: usize = 100_000;
+    // a run that the interpreter finishes takes at most 10^5 ligature steps per pair under the
+    // cursor (`word_limits`); each step adds at most one item, each character at most two
+    let limit: usize = 100_000 * (word.len() + 2) + 2 * word.len() + 8;
     let r = panics::catch(|| {
         if default_run {
-            compiled.run(word).take(LIMIT + 1).collect::<Vec<RunItem>>()
+            compiled.run(word).take(limit + 1).collect::<Vec<RunItem>>()
         } else {
             compiled
                 .run_with_options(word.chars(), RunOptions { disable_left_boundary: disable_left, right_boundary_override: rbo.map(|c| c as char) })
-                .take(LIMIT + 1)
+                .take(limit + 1)
                 .collect::<Vec<RunItem>>()
         }
     });
     match r {
-        Ok(v) if v.len() > LIMIT => Err(format!("RunIter yields more than {LIMIT} items for a word of {} characters", word.len())),
+        Ok(v) if v.len() > limit => Err(format!("RunIter yields more than {limit} items for a word of {} characters", word.len())),
         Ok(v) => Ok(v),
         Err(p) => Err(format!("panic at {}: {}", p.site(), p.message)),
     }
@@ -411,8 +525,8 @@ fn render_glyphs(g: &[Glyph]) -> String {
     let mut s = String::new();
     for x in g {
         match x {
-            Glyph::Char(c) => s.push(*c as char),
-            Glyph::Lig(c) => s.push_str(&format!("<{}>", *c as char)),
+            Glyph::Char(c) => s.push_str(&li::show(*c)),
+            Glyph::Lig(c) => s.push_str(&format!("<{}>", li::show(*c))),
             Glyph::Kern(k) => s.push_str(&format!("[{}sp]", k)),
         }
     }
@@ -423,27 +537,50 @@ fn render_run_items(items: &[RunItem]) -> String {
     let mut s = String::new();
     for i in items {
         match i {
-            RunItem::Char(c) => s.push(*c),
+            RunItem::Char(c) => s.push_str(&show_char(*c)),
             RunItem::Kern(k) => s.push_str(&format!("[{}sp]", k.0)),
-            RunItem::Ligature(l) => s.push_str(&format!("<{}:{}{}{}>", l.c, if l.includes_left_boundary { "|" } else { "" }, l.original, if l.includes_right_boundary { "|" } else { "" })),
+            RunItem::Ligature(l) => s.push_str(&format!(
+                "<{}:{}{}{}>",
+                show_char(l.c),
+                if l.includes_left_boundary { "|" } else { "" },
+                l.original.chars().map(show_char).collect::<String>(),
+                if l.includes_right_boundary { "|" } else { "" }
+            )),
         }
     }
     s
 }
 
 fn pair_name(p: (Option<u8>, u8)) -> String {
-    format!("({},{})", p.0.map(|c| (c as char).to_string()).unwrap_or("^".into()), p.1 as char)
+    format!("({},{})", p.0.map(li::show).unwrap_or("^".into()), li::show(p.1))
+}
+
+/// printable ASCII as it is, anything else as \xNN (or \u{..} beyond Latin-1)
+fn show_char(c: char) -> String {
+    if (c as u32) < 256 {
+        li::show(c as u32 as u8)
+    } else {
+        format!("\\u{{{:x}}}", c as u32)
+    }
 }
 
 // ------------------------------------------------------------------------------------------
 // What the model predicts, with or without named deviations
 
 #[derive(Clone, Debug, PartialEq, Eq)]
+enum RunPred {
+    Finished(Vec<Glyph>),
+    /// the word reaches a pair whose instructions never terminate
+    Diverges,
+    Undecided,
+}
+
+#[derive(Clone, Debug, PartialEq, Eq)]
 struct Prediction {
     diverging: BTreeSet<(Option<u8>, u8)>,
     undecided: bool,
-    /// per run: glyph skeleton (None when the model does not finish)
-    runs: Vec<Option<Vec<Glyph>>>,
+    /// per run plan
+    runs: Vec<RunPred>,
 }
 
 struct RunPlan {
@@ -453,16 +590,20 @@ struct RunPlan {
     rbo: Option<u8>,
 }
 
-fn plans(spec: &CaseSpec, letters: &[u8]) -> Vec<RunPlan> {
+fn plans(spec: &CaseSpec, letters: &[u8], outside: u8) -> Vec<RunPlan> {
     let mut v = vec![];
-    for (w, m) in &spec.words {
+    let long = spec.long_mode.map(|m| (spec.long_word.clone(), m));
+    for (w, m) in spec.words.iter().chain(long.iter()) {
         let word: Vec<u8> = w.iter().map(|i| letters[*i as usize % letters.len()]).collect();
         if word.is_empty() {
             continue;
         }
         v.push(RunPlan { word: word.clone(), default_run: true, disable_left: false, rbo: None });
-        let (d, o) = mode_of(*m, letters);
-        v.push(RunPlan { word, default_run: false, disable_left: d, rbo: o });
+        let (d, o) = mode_of(*m, letters, outside);
+        // a generated mode that equals the default run is not run twice
+        if d || o.is_some() {
+            v.push(RunPlan { word, default_run: false, disable_left: d, rbo: o });
+        }
     }
     v
 }
@@ -482,7 +623,15 @@ fn universe(font: &RawFont, letters: &[u8]) -> Vec<(Option<u8>, u8)> {
     out
 }
 
-fn predict(font: &RawFont, letters: &[u8], plans: &[RunPlan], limits: Limits, with_runs: bool) -> (Prediction, Vec<Option<(Vec<Item>, li::RunStats)>>) {
+/// The step cap of a run over a word: every pair that comes under the cursor of a terminating run
+/// has been evaluated on its own within `cap` steps, and at most len+1 of them are evaluated in a row.
+fn word_limits(l: Limits, len: usize) -> Limits {
+    Limits { cap: l.cap.saturating_mul(len as u64 + 2), ..l }
+}
+
+/// `partial_table`: not TeX but the named deviation of a listed finding together with what
+/// `compile` does about the loops that the deviation creates (diverging pairs get no entry).
+fn predict(font: &RawFont, ds: FixWord, letters: &[u8], plans: &[RunPlan], limits: Limits, with_runs: bool, partial_table: bool) -> (Prediction, Vec<Option<(Vec<Item>, li::RunStats)>>) {
     let mut diverging = BTreeSet::new();
     let mut undecided = false;
     for (l, r) in universe(font, letters) {
@@ -496,16 +645,25 @@ fn predict(font: &RawFont, letters: &[u8], plans: &[RunPlan], limits: Limits, wi
     }
     let mut runs = vec![];
     let mut full = vec![];
-    if with_runs && diverging.is_empty() && !undecided {
+    if with_runs && !undecided {
         for p in plans {
             let opts = li::RunOptions { left_boundary: !p.disable_left, right_boundary: p.rbo.or(font.right_boundary_char()) };
-            match font.run_word(&p.word, opts, limits) {
+            let out = if partial_table {
+                font.run_word_on_partial_table(&p.word, opts, word_limits(limits, p.word.len()), &diverging)
+            } else {
+                font.run_word_given(&p.word, opts, word_limits(limits, p.word.len()), Some(&diverging))
+            };
+            match out {
                 Outcome::Finished { items, stats } => {
-                    runs.push(Some(li::skeleton(&items, |k| k.to_scaled(design_size()).0)));
+                    runs.push(RunPred::Finished(li::skeleton(&items, |k| k.to_scaled(ds).0)));
                     full.push(Some((items, stats)));
                 }
-                _ => {
-                    runs.push(None);
+                Outcome::Diverges(_) => {
+                    runs.push(RunPred::Diverges);
+                    full.push(None);
+                }
+                Outcome::Undecided { .. } => {
+                    runs.push(RunPred::Undecided);
                     full.push(None);
                 }
             }
@@ -513,6 +671,8 @@ fn predict(font: &RawFont, letters: &[u8], plans: &[RunPlan], limits: Limits, wi
     }
     (Prediction { diverging, undecided, runs }, full)
 }
+
+const MODELLED_FLAGS: [&str; 1] = ["phantom_ligature_in_chain"];
 
 /// Deviation flags this property knows how to model.
 fn deviation_for(flag: &str) -> Option<Deviations> {
@@ -525,17 +685,17 @@ fn deviation_for(flag: &str) -> Option<Deviations> {
 fn tfm_round_trip(b: &Built) -> Result<tfm::File, String> {
     let mut file = tfm::File::default();
     file.header = tfm::Header::tfm_default();
-    file.header.design_size = design_size();
+    file.header.design_size = b.design_size;
     file.widths = vec![FixWord::ZERO, FixWord::ONE];
     let mut chars: Vec<u8> = b.letters.clone();
-    chars.extend([OUTSIDE, PAD_LEFT, PAD_RIGHT, EXTRA]);
-    for c in chars {
+    chars.extend([b.outside, PAD_LEFT, PAD_RIGHT, EXTRA]);
+    for c in &chars {
         file.char_dimens.insert(
-            Char(c),
+            Char(*c),
             tfm::CharDimensions { width_index: tfm::WidthIndex::Valid(std::num::NonZeroU8::new(1).unwrap()), height_index: 0, depth_index: 0, italic_index: 0 },
         );
     }
-    file.smallest_char = Char(b'a');
+    file.smallest_char = Char(chars.iter().copied().min().unwrap());
     file.replace_lig_kern_program(b.program.clone(), b.entrypoints.clone());
     let bytes = file.serialize();
     let (r, _warnings) = tfm::File::deserialize(&bytes);
@@ -544,6 +704,138 @@ fn tfm_round_trip(b: &Built) -> Result<tfm::File, String> {
 
 fn limits() -> Limits {
     Limits::default()
+}
+
+// ------------------------------------------------------------------------------------------
+// boxworks-text: the node list `add_word` builds from the run items
+
+/// A text preprocessor of boxworks-text with the compiled program registered as its only font.
+struct AddWord {
+    tp: boxworks_text::TextPreprocessorImpl,
+}
+
+impl AddWord {
+    fn new(compiled: &CompiledProgram) -> Result<AddWord, String> {
+        static PARAMS_FONT: std::sync::OnceLock<tfm::File> = std::sync::OnceLock::new();
+        // register_font reads the four space parameters of the font; nothing else of the file matters
+        let file = PARAMS_FONT.get_or_init(|| {
+            let mut f = tfm::File::default();
+            f.params = vec![FixWord::ZERO; 7];
+            f
+        });
+        panics::catch(|| {
+            let mut tp = boxworks_text::TextPreprocessorImpl::new(boxworks_text::Params::plain_tex_defaults());
+            tp.register_font(0, file, compiled.clone());
+            tp.activate_font(0);
+            AddWord { tp }
+        })
+        .map_err(|p| format!("register_font panics at {}: {}", p.site(), p.message))
+    }
+
+    /// (node, original characters, includes_left_boundary, includes_right_boundary); discretionary
+    /// nodes (TeX 1039, after a hyphen character; C12/C14's business) are dropped, nodes of any
+    /// other kind (add_word builds none today) are counted and dropped.
+    fn nodes(&mut self, word: &str) -> Result<Vec<(Glyph, Vec<u8>, bool, bool)>, String> {
+        use boxworks::ds;
+        use boxworks::TextPreprocessor;
+        let tp = &mut self.tp;
+        let r = panics::catch(|| {
+            let mut list: Vec<ds::Horizontal> = vec![];
+            tp.add_word(word, &mut list);
+            let mut out = vec![];
+            for h in &list {
+                match h {
+                    ds::Horizontal::Char(c) if c.font == 0 => out.push((Glyph::Char(c.char as u32 as u8), vec![], false, false)),
+                    ds::Horizontal::Kern(k) => out.push((Glyph::Kern(k.width.0), vec![], false, false)),
+                    ds::Horizontal::Ligature(l) if l.font == 0 => out.push((Glyph::Lig(l.char as u32 as u8), codes(&l.original_chars), l.includes_left_boundary, l.includes_right_boundary)),
+                    ds::Horizontal::Discretionary(_) => {}
+                    // the statement speaks about characters, ligature glyphs and kerns only; any
+                    // other node is counted and left to the properties about horizontal lists
+                    _ => {
+                        OBS_OTHER_NODES.fetch_add(1, std::sync::atomic::Ordering::Relaxed);
+                    }
+                }
+            }
+            Ok::<_, String>(out)
+        });
+        match r {
+            Ok(x) => x,
+            Err(p) => Err(format!("add_word panics at {}: {}", p.site(), p.message)),
+        }
+    }
+}
+
+fn render_nodes(n: &[(Glyph, Vec<u8>, bool, bool)]) -> String {
+    let mut s = String::new();
+    for (g, o, l, r) in n {
+        match g {
+            Glyph::Char(c) => s.push_str(&li::show(*c)),
+            Glyph::Kern(k) => s.push_str(&format!("[{}sp]", k)),
+            Glyph::Lig(c) => s.push_str(&format!("<{}:{}{}{}>", li::show(*c), if *l { "|" } else { "" }, o.iter().map(|c| li::show(*c)).collect::<String>(), if *r { "|" } else { "" })),
+        }
+    }
+    s
+}
+
+/// `add_word` on one word against the interpreter's output: the nodes must be the same characters,
+/// ligature glyphs and kerns in the same order, and characters plus ligature originals must spell
+/// the word. Returns whether originals and boundary bits are TeX's too (observation).
+fn check_add_word(aw: &mut AddWord, word: &[u8], want: &[Glyph], items: &[Item], ds: FixWord) -> Result<bool, String> {
+    let w = text(word);
+    let nodes = aw.nodes(&w)?;
+    let skel: Vec<Glyph> = nodes.iter().map(|n| n.0).collect();
+    if skel != want {
+        return Err(format!("boxworks_text add_word({w:?}) builds other nodes than TeX's main loop\ninterpreter: {}\nadd_word:    {}", render_glyphs(want), render_nodes(&nodes)));
+    }
+    let mut spelled: Vec<u8> = vec![];
+    for (g, o, _, _) in &nodes {
+        match g {
+            Glyph::Char(c) => spelled.push(*c),
+            Glyph::Lig(_) => spelled.extend(o),
+            Glyph::Kern(_) => {}
+        }
+    }
+    if spelled != word {
+        return Err(format!("boxworks_text add_word({w:?}): characters plus original_chars of the ligature nodes spell {:?}\nadd_word: {}", text(&spelled), render_nodes(&nodes)));
+    }
+    Ok(nodes == model_as_items(items, ds))
+}
+
+static OBS_BITS_DIFFER: std::sync::atomic::AtomicU64 = std::sync::atomic::AtomicU64::new(0);
+static OBS_GOLDEN_BITS_DIFFER: std::sync::atomic::AtomicU64 = std::sync::atomic::AtomicU64::new(0);
+static OBS_OTHER_NODES: std::sync::atomic::AtomicU64 = std::sync::atomic::AtomicU64::new(0);
+
+/// `Program::instructions_for_entrypoint` against the model's chain walk (SKIP n continues n+1
+/// further on, STOP and stop words end the program).
+fn check_entrypoint_iter(program: &Program, font: &RawFont) -> Result<(), String> {
+    for l in font.lefts() {
+        let e = font.entry_of(l).unwrap();
+        let want = font.chain(e);
+        let r = panics::catch(|| {
+            let mut got = vec![];
+            for (i, ins) in program.instructions_for_entrypoint(e as u16).take(want.len() + 2) {
+                if program.instructions.get(i) != Some(ins) {
+                    return Err(format!("instructions_for_entrypoint({e}) yields index {i} with another instruction than instructions[{i}]"));
+                }
+                got.push(i);
+            }
+            Ok(got)
+        });
+        let got = match r {
+            Ok(Ok(g)) => g,
+            Ok(Err(m)) => return Err(m),
+            Err(p) => return Err(format!("instructions_for_entrypoint({e}) panics at {}: {}", p.site(), p.message)),
+        };
+        if got != want {
+            return Err(format!(
+                "instructions_for_entrypoint({e}) (program of {}) visits instructions {:?}, the SKIP/STOP chain from there is {:?}",
+                l.map(|c| format!("{:?}", c as char)).unwrap_or("the left boundary".into()),
+                got,
+                want
+            ));
+        }
+    }
+    Ok(())
 }
 
 fn oracle(ctx: &Ctx, spec: &CaseSpec, case: &mut Case) -> Verdict {
@@ -556,7 +848,8 @@ fn oracle(ctx: &Ctx, spec: &CaseSpec, case: &mut Case) -> Verdict {
 
 fn oracle_inner(ctx: &Ctx, spec: &CaseSpec, case: &mut Case) -> Verdict {
     let b = build(spec);
-    let plans = plans(spec, &b.letters);
+    let ds = b.design_size;
+    let plans = plans(spec, &b.letters, b.outside);
     let listing = li::render_font(&b.font);
     case.note = Some(format!("{}  words: {}", listing, plans.iter().filter(|p| p.default_run).map(|p| text(&p.word)).collect::<Vec<_>>().join(",")));
     case.class(if spec.via_tfm {
@@ -569,6 +862,7 @@ fn oracle_inner(ctx: &Ctx, spec: &CaseSpec, case: &mut Case) -> Verdict {
     case.class_if(b.program.instructions.len() > 255, "program>255 instructions");
     case.class_if(b.shared_instruction, "two labels enter one chain");
     case.class_if(b.uses_skip, "SKIP n>0");
+    case.class_if(b.max_skip > 2, "SKIP n>2 in the program of a letter or of the left boundary");
     case.class(match spec.rb {
         RbSpec::Absent => "bchar:none",
         RbSpec::Inside(_) => "bchar:in alphabet",
@@ -576,7 +870,15 @@ fn oracle_inner(ctx: &Ctx, spec: &CaseSpec, case: &mut Case) -> Verdict {
     });
     case.class_if(b.program.left_boundary_char_entrypoint.is_some(), "left boundary program");
     case.class_if(spec.high, "a letter with code > 127");
+    case.class_if(b.letters.contains(&0) || (spec.rb == RbSpec::Outside && b.outside == 0), "character code 0x00 in the alphabet or as boundary character");
+    case.class_if(b.letters.contains(&0xFF) || (spec.rb == RbSpec::Outside && b.outside == 0xFF), "character code 0xFF in the alphabet or as boundary character");
+    case.class_if(spec.design % 4 != 0, "design size other than 10pt");
     case.class_if(b.program.instructions.iter().any(|i| matches!(i.operation, Operation::Ligature { char_to_insert, .. } if char_to_insert.0 == EXTRA)), "inserts a character that has no program");
+
+    // Program::instructions_for_entrypoint
+    if let Err(m) = check_entrypoint_iter(&b.program, &b.font) {
+        return Verdict::Fail(format!("{m}\nprogram: {listing}"));
+    }
 
     // the implementation
     let (compiled, errors, font_eff) = if spec.via_tfm {
@@ -591,12 +893,17 @@ fn oracle_inner(ctx: &Ctx, spec: &CaseSpec, case: &mut Case) -> Verdict {
         };
         let f2 = RawFont::from_tfm_file(&file);
         case.class_if(f2.entries().iter().any(|(c, e)| file.lig_kern_entrypoints().get(&Char(*c)).map(|e8| *e8 as usize != *e).unwrap_or(false)), "entry point redirected");
+        case.class_if(file.kerns.len() > 256, "kern array > 256 entries");
+        // the same on the program as read back (stop words in it)
+        if let Err(m) = check_entrypoint_iter(&file.lig_kern_program, &f2) {
+            return Verdict::Fail(format!("{m}\nprogram (as read back from the TFM file): {}", li::render_font(&f2)));
+        }
         (c, e, f2)
     } else if spec.via_pl {
         let mut pl = tfm::pl::File::default();
-        pl.header.design_size = design_size();
+        pl.header.design_size = ds;
         let mut chars: Vec<u8> = b.letters.clone();
-        chars.extend([OUTSIDE, PAD_LEFT, PAD_RIGHT, EXTRA]);
+        chars.extend([b.outside, PAD_LEFT, PAD_RIGHT, EXTRA]);
         for c in chars {
             pl.char_dimens.insert(Char(c), tfm::pl::CharDimensions { width: Some(FixWord::ONE), ..Default::default() });
         }
@@ -608,7 +915,7 @@ fn oracle_inner(ctx: &Ctx, spec: &CaseSpec, case: &mut Case) -> Verdict {
     } else {
         let mut ordered: Vec<(Char, u16)> = b.entrypoints.iter().map(|(c, e)| (*c, *e)).collect();
         ordered.sort();
-        match panics::catch(|| CompiledProgram::compile(&b.program, design_size(), &[], ordered.into_iter().collect())) {
+        match panics::catch(|| CompiledProgram::compile(&b.program, ds, &[], ordered.into_iter().collect())) {
             Ok((c, e)) => (c, e, b.font.clone()),
             Err(p) => return Verdict::Fail(format!("compile panics at {}: {}\nprogram: {listing}", p.site(), p.message)),
         }
@@ -616,45 +923,77 @@ fn oracle_inner(ctx: &Ctx, spec: &CaseSpec, case: &mut Case) -> Verdict {
 
     // the model on the instructions as generated
     let lim = limits();
-    let (pred, full) = predict(&b.font, &b.letters, &plans, lim, true);
+    let (pred, full) = predict(&b.font, ds, &b.letters, &plans, lim, true, false);
     let exact = b.font.step_bound(1).map(|x| x <= lim.cap).unwrap_or(false);
     case.class(if exact { "termination decided exactly (2^(P+1) <= cap)" } else { "termination by cap 10^5 + repeated configuration" });
     if pred.undecided {
         case.class("termination undecided");
+        // what is decided still binds: a pair proven to diverge obliges compile to report a loop,
+        // and a reported pair that the interpreter finishes is a false report
+        let one_sided = |font: &RawFont, diverging: &BTreeSet<(Option<u8>, u8)>| -> Result<(), String> {
+            if !diverging.is_empty() && errors.is_empty() {
+                return Err(format!("compile reports no infinite loop, but the instructions for {} never terminate", diverging.iter().map(|p| pair_name(*p)).collect::<Vec<_>>().join(" ")));
+            }
+            for e in &errors {
+                let r = (e.starting_pair.0.map(|c| c.0), e.starting_pair.1 .0);
+                if matches!(font.run_pair(r.0, r.1, lim), Outcome::Finished { .. }) {
+                    return Err(format!("compile reports an infinite loop starting with {}, but that pair terminates", pair_name(r)));
+                }
+            }
+            Ok(())
+        };
+        if let Err(msg) = one_sided(&b.font, &pred.diverging) {
+            for f in ctx.known_flags().into_iter().filter(|f| deviation_for(f).is_some()) {
+                let fd = font_eff.clone().with_deviations(deviation_for(&f).unwrap());
+                let (pd, _) = predict(&fd, ds, &b.letters, &plans, lim, false, true);
+                if one_sided(&fd, &pd.diverging).is_ok() {
+                    return Verdict::Known(format!("flag:{f}"));
+                }
+            }
+            return Verdict::Fail(format!("{msg}\n(termination of some other pair is undecided within the step cap)\nprogram: {listing}"));
+        }
         return Verdict::Skip("termination undecided within the step cap");
     }
     if spec.via_tfm {
         // packing, serialising and reading back must not change the meaning of the raw program
-        let (pred2, _) = predict(&font_eff, &b.letters, &plans, lim, true);
+        let (pred2, full2) = predict(&font_eff, ds, &b.letters, &plans, lim, true, false);
         if pred2 != pred {
             return Verdict::Fail(format!(
                 "the raw program means something else after replace_lig_kern_program + serialize + deserialize\nbefore: {listing}\nafter:  {}\nbefore: diverging {:?} runs {:?}\nafter:  diverging {:?} runs {:?}",
                 li::render_font(&font_eff),
                 pred.diverging.iter().map(|p| pair_name(*p)).collect::<Vec<_>>(),
-                pred.runs.iter().map(|r| r.as_ref().map(|g| render_glyphs(g))).collect::<Vec<_>>(),
+                pred.runs,
                 pred2.diverging.iter().map(|p| pair_name(*p)).collect::<Vec<_>>(),
-                pred2.runs.iter().map(|r| r.as_ref().map(|g| render_glyphs(g))).collect::<Vec<_>>(),
+                pred2.runs,
             ));
         }
+        case.class_if(full2.iter().flatten().any(|(_, st)| st.kern_index_ge_256), "kern with index >= 256 fires");
     }
 
-    // observations of the implementation
+    // observations of the implementation: every word is run, also on the table that compile
+    // returns together with a loop report (it is what every consumer in the repository runs)
     let impl_loop = !errors.is_empty();
     let reported: Vec<(Option<u8>, u8)> = errors.iter().map(|e| (e.starting_pair.0.map(|c| c.0), e.starting_pair.1 .0)).collect();
-    let mut impl_runs: Vec<Option<Vec<Glyph>>> = vec![];
-    let mut impl_raw: Vec<Vec<RunItem>> = vec![];
-    if !impl_loop {
-        for p in &plans {
-            let word = text(&p.word);
-            match impl_items(&compiled, &word, p.default_run, p.disable_left, p.rbo) {
-                Ok(items) => {
-                    impl_runs.push(Some(impl_skeleton(&items)));
-                    impl_raw.push(items);
-                }
-                Err(m) => return Verdict::Fail(format!("{m}\nprogram: {listing}\nword: {word} (left boundary {}, right boundary override {:?})", !p.disable_left, p.rbo.map(|c| c as char))),
-            }
+    let mut impl_raw: Vec<Result<Vec<RunItem>, String>> = vec![];
+    for (i, p) in plans.iter().enumerate() {
+        // a word on which TeX itself does not come to an end has no expected output
+        if !matches!(pred.runs[i], RunPred::Finished(_)) {
+            impl_raw.push(Err("not run".into()));
+            continue;
         }
+        impl_raw.push(impl_items(&compiled, &text(&p.word), p.default_run, p.disable_left, p.rbo));
     }
+    let describe = |p: &RunPlan| -> String {
+        format!(
+            "{}left boundary {}, right boundary {}",
+            if p.default_run { "run(), " } else { "run_with_options(), " },
+            if p.disable_left { "off" } else { "on" },
+            match p.rbo {
+                Some(c) => format!("overridden by {:?}", c as char),
+                None => "of the font".to_string(),
+            }
+        )
+    };
 
     let agrees = |pr: &Prediction| -> Result<(), String> {
         let model_loop = !pr.diverging.is_empty();
@@ -670,26 +1009,30 @@ fn oracle_inner(ctx: &Ctx, spec: &CaseSpec, case: &mut Case) -> Verdict {
                 return Err(format!("compile reports an infinite loop starting with {}, but that pair terminates (diverging pairs: {})", pair_name(*r), pr.diverging.iter().map(|p| pair_name(*p)).collect::<Vec<_>>().join(" ")));
             }
         }
-        if model_loop {
-            return Ok(());
-        }
         for (i, p) in plans.iter().enumerate() {
-            let Some(want) = &pr.runs[i] else {
-                return Err(format!("model does not finish on word {} although every pair terminates (model defect)", text(&p.word)));
+            // compared: the words on which TeX comes to an end
+            if !matches!(pred.runs[i], RunPred::Finished(_)) {
+                if pred.runs[i] == RunPred::Diverges && pred.diverging.is_empty() {
+                    return Err(format!("model diverges on word {} although every pair terminates (model defect)", text(&p.word)));
+                }
+                continue;
+            }
+            let want = match &pr.runs[i] {
+                RunPred::Finished(w) => w,
+                _ => return Err(format!("deviating model does not finish on word {}", text(&p.word))),
             };
-            let got = impl_runs[i].as_ref().unwrap();
-            if got != want {
+            let got = match &impl_raw[i] {
+                Ok(items) => impl_skeleton(items),
+                Err(m) => return Err(format!("{m}\nword: {:?} ({})", text(&p.word), describe(p))),
+            };
+            if &got != want {
                 return Err(format!(
-                    "glyph/kern sequence differs for word {:?} ({}left boundary {}, right boundary {})\ninterpreter: {}\ncompiled:    {}",
+                    "glyph/kern sequence differs for word {:?} ({}){}\ninterpreter: {}\ncompiled:    {}",
                     text(&p.word),
-                    if p.default_run { "run(), " } else { "run_with_options(), " },
-                    if p.disable_left { "off" } else { "on" },
-                    match p.rbo {
-                        Some(c) => format!("overridden by {}", c as char),
-                        None => "of the font".to_string(),
-                    },
+                    describe(p),
+                    if model_loop { "; compile reports a loop, but TeX's main loop comes to an end on this word" } else { "" },
                     render_glyphs(want),
-                    render_glyphs(got)
+                    render_glyphs(&got)
                 ));
             }
         }
@@ -702,48 +1045,88 @@ fn oracle_inner(ctx: &Ctx, spec: &CaseSpec, case: &mut Case) -> Verdict {
         for f in &flags {
             let dev = deviation_for(f).unwrap();
             let fd = font_eff.clone().with_deviations(dev);
-            let (pd, _) = predict(&fd, &b.letters, &plans, lim, true);
+            let (pd, _) = predict(&fd, ds, &b.letters, &plans, lim, true, true);
             if !pd.undecided && agrees(&pd).is_ok() {
+                // the third sentence of the statement holds of any table: what was run must spell the word
+                for (i, p) in plans.iter().enumerate() {
+                    if let Ok(raw) = &impl_raw[i] {
+                        if impl_spelled(raw) != text(&p.word) {
+                            return Verdict::Fail(format!(
+                                "plain characters plus ligature originals spell {:?}, not the word {:?} ({})\ncompiled: {}\nprogram: {listing}",
+                                impl_spelled(raw),
+                                text(&p.word),
+                                describe(p),
+                                render_run_items(raw)
+                            ));
+                        }
+                    }
+                }
                 return Verdict::Known(format!("flag:{f}"));
             }
         }
-        return Verdict::Fail(format!("{msg}\nprogram: {listing}\nroute: {}", if spec.via_tfm { "TFM file" } else if spec.via_pl { "pl::File" } else { "direct" }));
+        return Verdict::Fail(format!("{msg}\nprogram: {listing}\nroute: {}\ndesign size: {}/2^20 pt", if spec.via_tfm { "TFM file" } else if spec.via_pl { "pl::File" } else { "direct" }, ds.0));
     }
 
     if impl_loop {
         case.class("loop");
         case.class_if(pred.diverging.iter().any(|p| p.0.is_none()), "loop at the left boundary");
-        return Verdict::pass(true);
+    } else {
+        case.class("loop-free");
     }
-    case.class("loop-free");
 
     // the recorded characters spell the word; per-ligature originals are an observation only
-    let mut nontrivial = false;
+    let mut nontrivial = impl_loop;
+    let mut add_word: Option<AddWord> = None;
     for (i, p) in plans.iter().enumerate() {
+        case.class_if(pred.runs[i] == RunPred::Undecided, "word: termination undecided within the step cap (not compared)");
+        let RunPred::Finished(want) = &pred.runs[i] else { continue };
+        let raw = impl_raw[i].as_ref().unwrap();
         let word = text(&p.word);
-        let spelled = impl_spelled(&impl_raw[i]);
+        let spelled = impl_spelled(raw);
         if spelled != word {
             return Verdict::Fail(format!(
-                "plain characters plus ligature originals spell {:?}, not the word {:?} (left boundary {}, right boundary override {:?})\ncompiled: {}\nprogram: {listing}",
+                "plain characters plus ligature originals spell {:?}, not the word {:?} ({})\ncompiled: {}\nprogram: {listing}",
                 spelled,
                 word,
-                !p.disable_left,
-                p.rbo.map(|c| c as char),
-                render_run_items(&impl_raw[i])
+                describe(p),
+                render_run_items(raw)
             ));
         }
         let (items, stats) = full[i].as_ref().unwrap();
         if li::spelled(items) != p.word {
             return Verdict::Fail(format!("model defect: the interpreter's originals spell {:?} for {:?}", text(&li::spelled(items)), word));
         }
-        if impl_as_items(&impl_raw[i]) != model_as_items(items, design_size()) {
+        let mut bits_differ = impl_as_items(raw) != model_as_items(items, ds);
+        if p.default_run {
+            // boxworks-text: add_word runs the word with the default options
+            if add_word.is_none() {
+                add_word = match AddWord::new(&compiled) {
+                    Ok(a) => Some(a),
+                    Err(m) => return Verdict::Fail(m),
+                };
+            }
+            match check_add_word(add_word.as_mut().unwrap(), &p.word, want, items, ds) {
+                Ok(same) => bits_differ |= !same,
+                Err(m) => return Verdict::Fail(format!("{m}\nprogram: {listing}")),
+            }
+            case.class("add_word node list compared");
+        }
+        if bits_differ {
+            OBS_BITS_DIFFER.fetch_add(1, std::sync::atomic::Ordering::Relaxed);
             case.class("obs: per-ligature originals/boundary bits differ from TeX's (not part of the property)");
         }
+        case.class_if(impl_loop, "loop program: word on which TeX terminates compared");
+        case.class_if(p.word.len() > 6, "word of 7-40 letters");
+        case.class_if(p.word.len() > 6 && stats.lig_steps >= 8, "word of 7-40 letters with >= 8 ligature steps");
         case.class_if(stats.reentered, "ligature result re-enters a pair with a rule");
         case.class_if(stats.left_boundary_rule, "left boundary rule fires");
         case.class_if(stats.right_boundary_rule, "right boundary rule fires");
         case.class_if(stats.kern_steps > 0, "kern fires");
+        case.class_if(stats.kern_steps > 0 && spec.design % 4 != 0, "kern fires at a design size other than 10pt");
+        case.class_if(stats.kern_steps > 0 && spec.kern_low != 0, "kern with low-order bits fires");
+        case.class_if(stats.fired_after_skip_gt_2, "rule reached over a SKIP n>2 fires");
         case.class_if(stats.lig_steps >= 4, ">=4 ligature steps in a word");
+        case.class_if(stats.touched_00_or_ff, "rule on a pair with character code 0x00 or 0xFF fires");
         for (fi, name) in ["=:", "=:|", "=:|>", "|=:", "|=:>", "|=:|", "|=:|>", "|=:|>>"].iter().enumerate() {
             if stats.forms & (1 << fi) != 0 {
                 case.class(match *name {
@@ -1158,12 +1541,22 @@ fn repo_dir() -> String {
     std::env::var("VP_REPO").unwrap_or_else(|_| "/repo".to_string())
 }
 
-fn read_repo(rel: &str) -> String {
+fn read_repo(rel: &str) -> Option<String> {
     let p = format!("{}/{}", repo_dir(), rel);
-    std::fs::read_to_string(&p).unwrap_or_else(|e| {
-        eprintln!("C05: cannot read {p}: {e}");
-        std::process::exit(2)
-    })
+    match std::fs::read_to_string(&p) {
+        Ok(s) => Some(s),
+        Err(e) => {
+            eprintln!("C05: cannot read {p}: {e} (that calibration is skipped)");
+            None
+        }
+    }
+}
+
+/// A calibration whose source (the text of a unit-test table in the repository) cannot be read by
+/// the little parser below is skipped and counted; it says nothing about the property.
+fn calib_skipped(ctx: &Ctx, sub: &str, reason: &'static str) {
+    eprintln!("C05: {sub}: {reason}");
+    run_list(ctx, sub, vec![serde_json::Value::Null], move |_: &serde_json::Value, _case| Verdict::Skip(reason));
 }
 
 fn form_by_name(n: &str) -> Option<PostLigOperation> {
@@ -1205,8 +1598,15 @@ fn run_golden_oracle(ligaroo: &str, g: &RunGolden, case: &mut Case) -> Verdict {
     };
     let want = golden_as_items(&g.want);
     let got = model_as_items(items, pl.header.design_size);
-    if got != want {
+    // what the property speaks about: glyph/kern sequence and spelling
+    let skel = |v: &[(Glyph, Vec<u8>, bool, bool)]| v.iter().map(|x| x.0).collect::<Vec<Glyph>>();
+    if skel(&got) != skel(&want) || li::spelled(items) != g.input.as_bytes() {
         return Verdict::Fail(format!("MODEL DISAGREES WITH A TeX-VERIFIED GOLDEN (unit test {}): model {} golden {:?}", g.name, li::render_items(items), g.want));
+    }
+    // per-ligature originals and boundary bits: an observation, as in the main oracle
+    if got != want {
+        OBS_GOLDEN_BITS_DIFFER.fetch_add(1, std::sync::atomic::Ordering::Relaxed);
+        case.class("obs: the golden's per-ligature originals/boundary bits differ from the model's (not part of the property)");
     }
     Verdict::pass(stats.reentered || stats.left_boundary_rule || stats.right_boundary_rule)
 }
@@ -1412,27 +1812,28 @@ fn corpus_oracle(c: &CorpusFile, case: &mut Case) -> Verdict {
 
 // cmr10
 
-fn cmr10() -> &'static (CompiledProgram, RawFont, FixWord) {
-    static CELL: std::sync::OnceLock<(CompiledProgram, RawFont, FixWord)> = std::sync::OnceLock::new();
-    CELL.get_or_init(|| {
+fn cmr10() -> Result<&'static (CompiledProgram, RawFont, FixWord), Verdict> {
+    static CELL: std::sync::OnceLock<Result<(CompiledProgram, RawFont, FixWord), (bool, String)>> = std::sync::OnceLock::new();
+    let r = CELL.get_or_init(|| {
         let path = format!("{}/crates/tfm/corpus/computer-modern/cmr10.tfm", repo_dir());
-        let bytes = std::fs::read(&path).unwrap_or_else(|e| {
-            eprintln!("C05: cannot read {path}: {e}");
-            std::process::exit(2)
-        });
-        let mut file = tfm::File::deserialize(&bytes).0.unwrap_or_else(|e| {
-            eprintln!("C05: cmr10.tfm does not deserialise: {e:?}");
-            std::process::exit(2)
-        });
+        let bytes = std::fs::read(&path).map_err(|e| (false, format!("cannot read {path}: {e}")))?;
+        let mut file = tfm::File::deserialize(&bytes).0.map_err(|e| (true, format!("cmr10.tfm does not deserialise: {e:?}")))?;
         let font = RawFont::from_tfm_file(&file);
         let ds = file.header.design_size;
         let (c, e) = CompiledProgram::compile_from_tfm_file(&mut file);
         if !e.is_empty() {
-            eprintln!("C05: cmr10 reported to contain a loop");
-            std::process::exit(2)
+            return Err((true, format!("compile_from_tfm_file reports an infinite loop in cmr10 starting with {:?}", e[0].starting_pair)));
         }
-        (c, font, ds)
-    })
+        Ok((c, font, ds))
+    });
+    match r {
+        Ok(x) => Ok(x),
+        Err((true, m)) => Err(Verdict::Fail(m.clone())),
+        Err((false, m)) => {
+            eprintln!("C05: {m}");
+            Err(Verdict::Skip("cmr10.tfm of the corpus is unreadable"))
+        }
+    }
 }
 
 const CMR_ALPHABET: &[u8] = b"fil-`'!?AVka";
@@ -1476,7 +1877,10 @@ fn cmr_word(i: u64) -> Vec<u8> {
 
 /// Model against facts about cmr10 (calibration; the implementation is not involved).
 fn cmr_fact_oracle(i: usize, case: &mut Case) -> Verdict {
-    let (_, font, ds) = cmr10();
+    let (_, font, ds) = match cmr10() {
+        Ok(x) => x,
+        Err(v) => return v,
+    };
     let (w, fg) = cmr10_facts().swap_remove(i);
     case.note = Some(format!("cmr10 {w:?}"));
     let opts = li::RunOptions { left_boundary: true, right_boundary: font.right_boundary_char() };
@@ -1494,7 +1898,10 @@ fn cmr_fact_oracle(i: usize, case: &mut Case) -> Verdict {
 
 /// Compiled cmr10 against the interpreter on short words (a real font as a differential case).
 fn cmr_oracle(word: &[u8], case: &mut Case) -> Verdict {
-    let (compiled, font, ds) = cmr10();
+    let (compiled, font, ds) = match cmr10() {
+        Ok(x) => x,
+        Err(v) => return v,
+    };
     let w = String::from_utf8(word.to_vec()).unwrap();
     case.note = Some(format!("cmr10 {w:?}"));
     let mut nontrivial = false;
@@ -1519,43 +1926,408 @@ fn cmr_oracle(word: &[u8], case: &mut Case) -> Verdict {
 }
 
 // ------------------------------------------------------------------------------------------
+// corpus_words: the real TFM files of the repository's corpus (layouts written by PLtoTF and by
+// other programs: redirect words, the boundary word in location 0, boundary programs, unreachable
+// words), compiled the way boxworks compiles a font, against the interpreter.
+
+#[derive(Clone, Debug, Serialize, Deserialize)]
+pub struct CorpusWordsCase {
+    /// path below crates/tfm/corpus
+    pub tfm: String,
+    /// the words are taken over characters 8*window .. 8*window+8 of the font's candidate list
+    pub window: u32,
+}
+
+struct CorpusFont {
+    compiled: CompiledProgram,
+    reported: Vec<(Option<u8>, u8)>,
+    /// TeX's reading of the file
+    font: RawFont,
+    diverging: BTreeSet<(Option<u8>, u8)>,
+    /// the deviating readings of the file that this check can model (flag name, font, diverging pairs)
+    devs: Vec<(&'static str, RawFont, BTreeSet<(Option<u8>, u8)>)>,
+    ds: FixWord,
+    /// characters of the font that occur in its lig/kern programs: each left character that has a
+    /// program (those with ligature instructions first), followed by the right and inserted
+    /// characters of its instructions
+    candidates: Vec<u8>,
+    redirected: bool,
+    stop_word_in_a_program: bool,
+}
+
+fn all_corpus_tfms() -> Vec<String> {
+    let mut out = vec![];
+    for dir in ["computer-modern", "ctan", "originals", "fuzz"] {
+        let d = format!("{}/crates/tfm/corpus/{}", repo_dir(), dir);
+        let Ok(rd) = std::fs::read_dir(&d) else { continue };
+        let mut names: Vec<String> = rd.filter_map(|e| e.ok()).map(|e| e.file_name().to_string_lossy().to_string()).filter(|n| n.ends_with(".tfm")).collect();
+        names.sort();
+        out.extend(names.into_iter().map(|n| format!("{dir}/{n}")));
+    }
+    out
+}
+
+/// TeX 570 + 573 on the lig/kern part of a file: would `\font` load it? (TeX aborts with "Bad
+/// metric (TFM) file" otherwise, so the interpreter has nothing to say about other files.) Beyond
+/// TeX's tests the domain excludes op bytes that are none of 0,1,2,3,5,6,7,11: TeX 1040 executes
+/// some of them unlike any of the eight forms, and the repository reads them as `=:`.
+fn tex_accepts_lig_kern(file: &tfm::File) -> Result<(), &'static str> {
+    let ins = &file.lig_kern_program.instructions;
+    let nl = ins.len();
+    let nk = file.kerns.len();
+    let exists = |c: Char| file.char_dimens.contains_key(&c);
+    let bchar = file.lig_kern_program.right_boundary_char;
+    for (k, i) in ins.iter().enumerate() {
+        match i.operation {
+            Operation::EntrypointRedirect(u, _) => {
+                if u as usize >= nl {
+                    return Err("TeX 573 rejects the file (stop word with 256*op+rem >= nl)");
+                }
+            }
+            op => {
+                if Some(i.right_char) != bchar && !exists(i.right_char) {
+                    return Err("TeX 573 rejects the file (right character does not exist)");
+                }
+                match op {
+                    Operation::Ligature { char_to_insert, post_lig_tag_invalid, .. } => {
+                        if post_lig_tag_invalid {
+                            return Err("op byte that is none of the eight ligature forms (outside the property's domain)");
+                        }
+                        if !exists(char_to_insert) {
+                            return Err("TeX 573 rejects the file (inserted character does not exist)");
+                        }
+                    }
+                    Operation::KernAtIndex(x) => {
+                        if x as usize >= nk {
+                            return Err("TeX 573 rejects the file (kern index >= nk)");
+                        }
+                    }
+                    _ => {}
+                }
+                if let Some(a) = i.next_instruction {
+                    if k + a as usize + 1 >= nl {
+                        return Err("TeX 573 rejects the file (SKIP leaves the program)");
+                    }
+                }
+            }
+        }
+    }
+    for (_, e) in file.lig_kern_entrypoints() {
+        if e as usize >= nl {
+            return Err("TeX 570 rejects the file (lig/kern label >= nl)");
+        }
+    }
+    Ok(())
+}
+
+fn diverging_pairs(font: &RawFont) -> Option<BTreeSet<(Option<u8>, u8)>> {
+    let mut d = BTreeSet::new();
+    for l in font.lefts() {
+        for r in font.rights_of(l) {
+            match font.run_pair(l, r, limits()) {
+                Outcome::Finished { .. } => {}
+                Outcome::Diverges(_) => {
+                    d.insert((l, r));
+                }
+                Outcome::Undecided { .. } => return None,
+            }
+        }
+    }
+    Some(d)
+}
+
+const COMPILE_PANICS: &str = "compile_from_tfm_file panics";
+
+fn load_corpus_font(tfm: &str) -> Result<CorpusFont, &'static str> {
+    let path = format!("{}/crates/tfm/corpus/{}", repo_dir(), tfm);
+    let Ok(bytes) = std::fs::read(&path) else { return Err("corpus file unreadable") };
+    let (r, _) = match panics::catch(|| tfm::File::deserialize(&bytes)) {
+        Ok(x) => x,
+        Err(_) => return Err("deserialize panics (C10's business)"),
+    };
+    let Ok(mut file) = r else { return Err("not a TFM file") };
+    tex_accepts_lig_kern(&file)?;
+    let font = RawFont::from_tfm_file(&file);
+    let ds = file.header.design_size;
+    let Some(diverging) = diverging_pairs(&font) else { return Err("termination undecided within the step cap") };
+    let exists = |c: u8| file.char_dimens.contains_key(&Char(c));
+    // candidate characters
+    let mut lefts: Vec<u8> = font.entries().keys().copied().filter(|c| exists(*c)).collect();
+    let has_lig = |l: u8| font.chain(font.entries()[&l]).iter().any(|k| matches!(font.instructions()[*k].operation, Operation::Ligature { .. }));
+    lefts.sort_by_key(|l| (!has_lig(*l), *l));
+    let mut candidates: Vec<u8> = vec![];
+    let push = |c: u8, v: &mut Vec<u8>| {
+        if exists(c) && !v.contains(&c) {
+            v.push(c);
+        }
+    };
+    if let Some(e) = font.left_boundary_entry() {
+        for k in font.chain(e) {
+            let i = &font.instructions()[k];
+            push(i.right_char.0, &mut candidates);
+            if let Operation::Ligature { char_to_insert, .. } = i.operation {
+                push(char_to_insert.0, &mut candidates);
+            }
+        }
+    }
+    if let Some(b) = font.right_boundary_char() {
+        // the characters with a rule for the right boundary come early
+        for l in &lefts {
+            if font.lookup(Some(*l), b).is_some() {
+                push(*l, &mut candidates);
+            }
+        }
+        push(b, &mut candidates);
+    }
+    for l in &lefts {
+        push(*l, &mut candidates);
+        for k in font.chain(font.entries()[l]) {
+            let i = &font.instructions()[k];
+            push(i.right_char.0, &mut candidates);
+            if let Operation::Ligature { char_to_insert, .. } = i.operation {
+                push(char_to_insert.0, &mut candidates);
+            }
+        }
+    }
+    let redirected = font.entries().iter().any(|(c, e)| file.lig_kern_entrypoints().get(&Char(*c)).map(|e8| *e8 as usize != *e).unwrap_or(false));
+    let stop_word_in_a_program = font.lefts().iter().any(|l| font.chain(font.entry_of(*l).unwrap()).iter().any(|k| matches!(font.instructions()[*k].operation, Operation::EntrypointRedirect(..))));
+    // the implementation, as boxworks uses it: the file as deserialised, errors beside the table
+    let (compiled, errors) = match panics::catch(|| CompiledProgram::compile_from_tfm_file(&mut file)) {
+        Ok(x) => x,
+        Err(_) => return Err(COMPILE_PANICS),
+    };
+    let reported = errors.iter().map(|e| (e.starting_pair.0.map(|c| c.0), e.starting_pair.1 .0)).collect();
+    let mut devs = vec![];
+    for fl in MODELLED_FLAGS {
+        let fd = font.clone().with_deviations(deviation_for(fl).unwrap());
+        if let Some(d) = diverging_pairs(&fd) {
+            devs.push((fl, fd, d));
+        }
+    }
+    Ok(CorpusFont { compiled, reported, font, diverging, devs, ds, candidates, redirected, stop_word_in_a_program })
+}
+
+fn corpus_font(tfm: &str) -> std::sync::Arc<Result<CorpusFont, &'static str>> {
+    static CACHE: std::sync::Mutex<BTreeMap<String, std::sync::Arc<Result<CorpusFont, &'static str>>>> = std::sync::Mutex::new(BTreeMap::new());
+    if let Some(f) = CACHE.lock().unwrap().get(tfm) {
+        return f.clone();
+    }
+    let f = std::sync::Arc::new(load_corpus_font(tfm));
+    CACHE.lock().unwrap().entry(tfm.to_string()).or_insert(f).clone()
+}
+
+/// Evaluate `f(0..n)` on 16 threads (the engine hands a list of fewer than 4096 cases to a single
+/// worker; the corpus fonts are few but big). Deterministic: results are stored by index.
+fn par_map<R: Send>(n: usize, f: impl Fn(usize) -> R + Sync) -> Vec<R> {
+    let next = std::sync::atomic::AtomicUsize::new(0);
+    let out: std::sync::Mutex<Vec<Option<R>>> = std::sync::Mutex::new((0..n).map(|_| None).collect());
+    std::thread::scope(|s| {
+        for _ in 0..16 {
+            std::thread::Builder::new()
+                .stack_size(256 << 20)
+                .spawn_scoped(s, || loop {
+                    let i = next.fetch_add(1, std::sync::atomic::Ordering::Relaxed);
+                    if i >= n {
+                        break;
+                    }
+                    let r = f(i);
+                    out.lock().unwrap()[i] = Some(r);
+                })
+                .expect("spawn");
+        }
+    });
+    out.into_inner().unwrap().into_iter().map(|r| r.expect("worker died")).collect()
+}
+
+fn corpus_words_cases(max_windows: usize) -> Vec<CorpusWordsCase> {
+    let mut out = vec![];
+    let files = all_corpus_tfms();
+    par_map(files.len(), |i| {
+        corpus_font(&files[i]);
+    });
+    for tfm in files {
+        let n = match &*corpus_font(&tfm) {
+            Ok(f) => f.candidates.len().div_ceil(8).clamp(1, max_windows),
+            Err(_) => 1,
+        };
+        for window in 0..n as u32 {
+            out.push(CorpusWordsCase { tfm: tfm.clone(), window });
+        }
+    }
+    out
+}
+
+fn corpus_words_oracle(ctx: &Ctx, c: &CorpusWordsCase, case: &mut Case) -> Verdict {
+    let loaded = corpus_font(&c.tfm);
+    let f = match &*loaded {
+        Ok(f) => f,
+        Err(r) if *r == COMPILE_PANICS => return Verdict::Fail(format!("compile_from_tfm_file panics on corpus font {}", c.tfm)),
+        Err(r) => return Verdict::Skip(*r),
+    };
+    let start = (c.window as usize).saturating_mul(8).min(f.candidates.len());
+    let alphabet: Vec<u8> = f.candidates[start..(start + 8).min(f.candidates.len())].to_vec();
+    case.note = Some(format!("{} window {} characters {:?}", c.tfm, c.window, text(&alphabet)));
+    case.class_if(f.font.right_boundary_char().is_some(), "font has a boundary character");
+    case.class_if(f.font.left_boundary_entry().is_some(), "font has a left boundary program");
+    case.class_if(f.redirected, "font has a redirected entry point (label word with skip byte > 128)");
+    case.class_if(f.stop_word_in_a_program, "a program of the font runs into a stop word");
+    case.class_if(f.ds != FixWord::ONE * 10, "design size other than 10pt");
+    case.class_if(f.font.instructions().len() > 255, "program>255 instructions");
+    case.class_if(f.font.kerns().len() > 256, "kern array > 256 entries");
+    case.class_if(!f.diverging.is_empty(), "font with an infinite loop");
+
+    // deviating readings of the font for the listed known findings
+    let devs: Vec<&(&'static str, RawFont, BTreeSet<(Option<u8>, u8)>)> = f.devs.iter().filter(|(fl, _, _)| ctx.known(&format!("flag:{fl}"))).collect();
+    let mut known: Option<String> = None;
+
+    // loop report (once per font)
+    if c.window == 0 {
+        let verdict = |d: &BTreeSet<(Option<u8>, u8)>| -> Result<(), String> {
+            if d.is_empty() != f.reported.is_empty() {
+                return Err(if d.is_empty() {
+                    format!("compile_from_tfm_file reports an infinite loop starting with {} but every pair terminates", f.reported.iter().map(|p| pair_name(*p)).collect::<Vec<_>>().join(" "))
+                } else {
+                    format!("compile_from_tfm_file reports no infinite loop, but the instructions for {} never terminate", d.iter().map(|p| pair_name(*p)).collect::<Vec<_>>().join(" "))
+                });
+            }
+            for r in &f.reported {
+                if !d.contains(r) {
+                    return Err(format!("compile_from_tfm_file reports an infinite loop starting with {}, but that pair terminates", pair_name(*r)));
+                }
+            }
+            Ok(())
+        };
+        if let Err(m) = verdict(&f.diverging) {
+            match devs.iter().find(|(_, _, d)| verdict(d).is_ok()) {
+                Some((fl, _, _)) => known = Some(format!("flag:{fl}")),
+                None => return Verdict::Fail(format!("{m}\nfont: {}", c.tfm)),
+            }
+        }
+    }
+
+    // words of 1-3 characters over the window
+    let n = alphabet.len();
+    let mut words: Vec<Vec<u8>> = vec![];
+    for a in 0..n {
+        words.push(vec![alphabet[a]]);
+        for b in 0..n {
+            words.push(vec![alphabet[a], alphabet[b]]);
+            for d in 0..n {
+                words.push(vec![alphabet[a], alphabet[b], alphabet[d]]);
+            }
+        }
+    }
+    let mut nontrivial = !f.diverging.is_empty();
+    let mut add_word = match AddWord::new(&f.compiled) {
+        Ok(a) => a,
+        Err(m) => return Verdict::Fail(m),
+    };
+    for word in &words {
+        let w = text(word);
+        for (disable_left, rbo) in [(false, None), (true, None), (false, Some(alphabet[0]))] {
+            let opts = |font: &RawFont| li::RunOptions { left_boundary: !disable_left, right_boundary: rbo.or(font.right_boundary_char()) };
+            let model = |font: &RawFont, d: &BTreeSet<(Option<u8>, u8)>| font.run_word_given(word, opts(font), word_limits(limits(), word.len()), Some(d));
+            let out = model(&f.font, &f.diverging);
+            let Some((items, stats)) = out.finished() else {
+                case.class("word on which TeX does not terminate (not compared)");
+                continue;
+            };
+            let want = li::skeleton(items, |k| k.to_scaled(f.ds).0);
+            let got = match impl_items(&f.compiled, &w, !disable_left && rbo.is_none(), disable_left, rbo) {
+                Ok(x) => x,
+                Err(m) => return Verdict::Fail(format!("{m}\nfont {} word {w:?}", c.tfm)),
+            };
+            let how = format!("left boundary {}, right boundary {}", if disable_left { "off" } else { "on" }, rbo.map(|c| format!("overridden by {:?}", c as char)).unwrap_or("of the font".into()));
+            if impl_skeleton(&got) != want {
+                // exactly a listed deviation?
+                let explained = devs.iter().find(|(_, fd, d)| {
+                    fd.run_word_on_partial_table(word, opts(fd), word_limits(limits(), word.len()), d).finished().map(|(it, _)| li::skeleton(it, |k| k.to_scaled(f.ds).0) == impl_skeleton(&got)).unwrap_or(false)
+                });
+                match explained {
+                    Some((fl, _, _)) => {
+                        known = Some(format!("flag:{fl}"));
+                        continue;
+                    }
+                    None => return Verdict::Fail(format!("font {} word {w:?} ({how}): glyph/kern sequence differs\ninterpreter: {}\ncompiled:    {}", c.tfm, render_glyphs(&want), render_run_items(&got))),
+                }
+            }
+            if impl_spelled(&got) != w {
+                return Verdict::Fail(format!("font {} word {w:?} ({how}): compiled output spells {:?}: {}", c.tfm, impl_spelled(&got), render_run_items(&got)));
+            }
+            let mut bits_differ = impl_as_items(&got) != model_as_items(items, f.ds);
+            if !disable_left && rbo.is_none() {
+                match check_add_word(&mut add_word, word, &want, items, f.ds) {
+                    Ok(same) => bits_differ |= !same,
+                    Err(m) => return Verdict::Fail(format!("{m}\nfont {}", c.tfm)),
+                }
+            }
+            if bits_differ {
+                OBS_BITS_DIFFER.fetch_add(1, std::sync::atomic::Ordering::Relaxed);
+                case.class("obs: per-ligature originals/boundary bits differ from TeX's (not part of the property)");
+            }
+            case.class_if(!f.diverging.is_empty(), "loop program: word on which TeX terminates compared");
+            case.class_if(stats.lig_steps > 0, "ligature fires");
+            case.class_if(stats.kern_steps > 0, "kern fires");
+            case.class_if(stats.reentered, "ligature result re-enters a pair with a rule");
+            case.class_if(stats.left_boundary_rule, "left boundary rule fires");
+            case.class_if(stats.right_boundary_rule, "right boundary rule fires");
+            case.class_if(stats.kern_index_ge_256, "kern with index >= 256 fires");
+            case.class_if(stats.fired_after_skip_gt_2, "rule reached over a SKIP n>2 fires");
+            nontrivial |= stats.reentered || stats.left_boundary_rule || stats.right_boundary_rule;
+        }
+    }
+    case.classes.sort();
+    case.classes.dedup();
+    match known {
+        Some(k) => Verdict::Known(k),
+        None => Verdict::pass(nontrivial),
+    }
+}
+
+// ------------------------------------------------------------------------------------------
 
 pub fn run(ctx: &Ctx) {
-    ctx.rule("cases = lig/kern program (alphabet of 2, 3 or 4 letters, one of them optionally a code above 127; per left symbol and for the left boundary a chain of 0-4 instructions: right character, kern or one of the eight ligature forms =: =:| =:|> |=: |=:> |=:| |=:|> |=:|>> with an inserted letter (rarely a character that has no program), continue/SKIP n/STOP; labels may stand anywhere so several symbols enter one chain; optional right boundary character inside or outside the alphabet; optional 230-300 instruction padding block so entry points exceed 255; handed to compile directly, through pl::File, or through a serialised and re-read TFM file) x 5 words of 1-6 letters, each run with run() and with one generated run_with_options mode (left boundary off, right boundary overridden). Oracle: moving-cursor interpreter of the raw instructions after TeX 1034-1040; every pair (left symbol that has a program incl. the left boundary, right character) is evaluated on its own for termination. non-trivial = some pair diverges, or in some word a rule fires on a pair containing a character inserted by an earlier ligature step, or a left/right boundary rule fires; distinct = by generated case");
-    ctx.assume("programs are well formed as PLtoTF writes them: every SKIP lands inside the program and the last instruction stops; stop words (skip byte > 128) are never reachable inside a chain except the ones pack_entrypoints itself creates");
+    ctx.rule("cases = lig/kern program (alphabet of 2, 3 or 4 letters, one of them optionally a code above 127 or one of the extreme codes 0x00/0xFF; per left symbol and for the left boundary a chain of 0-4 instructions: right character, kern (multiples of 1/16, optionally with low-order bits) or one of the eight ligature forms =: =:| =:|> |=: |=:> |=:| |=:|> |=:|>> with an inserted letter (rarely a character that has no program), continue/SKIP 1..40/STOP; labels may stand anywhere so several symbols enter one chain; optional right boundary character inside or outside the alphabet (outside: r, 0x00 or 0xFF); optional 230-330 instruction padding block so entry points and kern indices exceed 255, labels may stand in its tail; design size 10pt, 12pt, 7.5pt or 17.28pt; handed to compile directly, through pl::File, or through a serialised and re-read TFM file) x 5 words of 1-6 letters and sometimes one of 7-40 letters, each run with run(), with one generated run_with_options mode (left boundary off, right boundary overridden) and through boxworks_text add_word. corpus_words: every corpus TFM file that TeX would load x all words of 1-3 characters over windows of 8 characters from its lig/kern programs. Oracle: moving-cursor interpreter of the raw instructions after TeX 1034-1040; every pair (left symbol that has a program incl. the left boundary, right character) is evaluated on its own for termination; words are compared whenever the interpreter comes to an end on them, also when the program has a loop elsewhere. non-trivial = some pair diverges, or in some word a rule fires on a pair containing a character inserted by an earlier ligature step, or a left/right boundary rule fires; distinct = by generated case");
+    ctx.assume("programs are well formed as PLtoTF writes them: every SKIP lands inside the program and the last instruction stops; stop words (skip byte > 128) are never reachable inside a chain except the ones pack_entrypoints itself creates; corpus files: the lig/kern part passes TeX's loading tests (TeX 570, 573) and every op byte is one of the eight forms");
     ctx.assume("all characters of words, right characters and inserted characters exist in the font (TeX 1036 drops nonexistent word characters before the lig/kern loop; TFtoPL repairs nonexistent instruction operands)");
-    ctx.assume("termination: a run with more than symbols*2^(P+1) ligature steps (P = pairs owning a ligature instruction) diverges - exact; when that bound exceeds the fixed cap of 10^5 steps a repeated (cursor symbol, unread list) configuration proves divergence, finishing proves termination, anything else is skipped and counted");
-    ctx.assume("kern amounts are compared after the same FixWord::to_scaled(design size 10pt) (decided by C17)");
-    ctx.assume("per-ligature original strings and the includes_left/right_boundary bits are compared with TeX's only as an observation class; the property demands the glyph/kern sequence and that plain characters plus originals spell the word");
+    ctx.assume("termination: a run with more than symbols*2^(P+1) ligature steps (P = pairs owning a ligature instruction) diverges - exact; when that bound exceeds the fixed cap of 10^5 steps a repeated (cursor symbol, unread list) configuration proves divergence, finishing proves termination, anything else is skipped and counted; a word diverges exactly when its run brings a diverging pair under the cursor");
+    ctx.assume("kern amounts are compared after the same FixWord::to_scaled(design size) (decided by C17)");
+    ctx.assume("per-ligature original strings and the includes_left/right_boundary bits (of run items and of add_word's ligature nodes) are compared with TeX's only as an observation class and exported as a counter; the property demands the glyph/kern sequence and that plain characters plus originals spell the word; discretionary nodes that add_word inserts after a hyphen are ignored");
     ctx.assume("compile's report names a pair: each reported starting pair must itself diverge (a report for a terminating pair counts as a false report)");
+    ctx.assume("a program with an infinite loop: the table compile returns beside the report is what every consumer in the repository runs (compile_from_tfm_file(..).0); the statement quantifies over every program and every word, so on each word on which TeX's main loop comes to an end (no diverging pair comes under the cursor) the table must give TeX's output; words on which TeX does not terminate have no expected output and are not compared");
 
     if ctx.is_generate() || matches!(&ctx.mode, Mode::Replay { sub, .. } if sub.starts_with("calib")) {
-        // Calibration first: a model that disagrees with a golden is wrong.
-        let run_src = read_repo("crates/tfm/src/ligkern/mod.rs");
+        // Calibration first: a model that disagrees with a golden is wrong. The goldens are read
+        // from the text of the repository's unit tests; a table that this reader cannot parse
+        // (layout of the test source changed) skips that calibration, it is no verdict.
         let ligaroo = read_repo("crates/tfm/src/ligkern/ligaroo.plst");
-        let run_goldens = parse_run_goldens(&run_src).unwrap_or_else(|e| {
-            eprintln!("C05: cannot read the unit-test table of ligkern/mod.rs: {e}");
-            std::process::exit(2)
-        });
-        let compile_src = read_repo("crates/tfm/src/ligkern/compiler.rs");
-        let compile_goldens = parse_compile_goldens(&compile_src).unwrap_or_else(|e| {
-            eprintln!("C05: cannot read the unit-test table of ligkern/compiler.rs: {e}");
-            std::process::exit(2)
-        });
-        if run_goldens.len() < 40 || compile_goldens.len() < 20 {
-            eprintln!("C05: only {} + {} unit-test goldens found", run_goldens.len(), compile_goldens.len());
-            std::process::exit(2);
+        match (read_repo("crates/tfm/src/ligkern/mod.rs").map(|s| parse_run_goldens(&s)), ligaroo) {
+            (Some(Ok(g)), Some(ligaroo)) if g.len() >= 40 => {
+                ctx.extra("calib_unit_run", "goldens", serde_json::json!(g.len()));
+                run_list(ctx, "calib_unit_run", g, |g: &RunGolden, case| run_golden_oracle(&ligaroo, g, case));
+                ctx.extra("calib_unit_run", "obs_goldens_whose_originals_or_boundary_bits_differ_from_the_model", serde_json::json!(OBS_GOLDEN_BITS_DIFFER.load(std::sync::atomic::Ordering::Relaxed)));
+            }
+            (Some(Err(e)), _) => {
+                eprintln!("C05: unit-test table of ligkern/mod.rs: {e}");
+                calib_skipped(ctx, "calib_unit_run", "the unit-test table of ligkern/mod.rs is not in the layout the calibration reader knows");
+            }
+            _ => calib_skipped(ctx, "calib_unit_run", "fewer than 40 run goldens found in ligkern/mod.rs, or a source file is unreadable"),
         }
-        ctx.extra("calib_unit_run", "goldens", serde_json::json!(run_goldens.len()));
-        ctx.extra("calib_unit_compile", "goldens", serde_json::json!(compile_goldens.len()));
-        run_list(ctx, "calib_unit_run", run_goldens, |g: &RunGolden, case| run_golden_oracle(&ligaroo, g, case));
-        run_list(ctx, "calib_unit_compile", compile_goldens, |g: &CompileGolden, case| compile_golden_oracle(g, case));
-        let compact = parse_compact_goldens(&read_repo("crates/tfm/src/ligkern/lang.rs"));
-        if compact.len() < 8 {
-            eprintln!("C05: only {} compact-notation goldens found in ligkern/lang.rs", compact.len());
-            std::process::exit(2);
+        match read_repo("crates/tfm/src/ligkern/compiler.rs").map(|s| parse_compile_goldens(&s)) {
+            Some(Ok(g)) if g.len() >= 20 => {
+                ctx.extra("calib_unit_compile", "goldens", serde_json::json!(g.len()));
+                run_list(ctx, "calib_unit_compile", g, |g: &CompileGolden, case| compile_golden_oracle(g, case));
+            }
+            Some(Err(e)) => {
+                eprintln!("C05: unit-test table of ligkern/compiler.rs: {e}");
+                calib_skipped(ctx, "calib_unit_compile", "the unit-test table of ligkern/compiler.rs is not in the layout the calibration reader knows");
+            }
+            _ => calib_skipped(ctx, "calib_unit_compile", "fewer than 20 compile goldens found in ligkern/compiler.rs, or the source file is unreadable"),
         }
-        run_list(ctx, "calib_compact_forms", compact, |g: &CompactGolden, case| compact_golden_oracle(g, case));
+        match read_repo("crates/tfm/src/ligkern/lang.rs").map(|s| parse_compact_goldens(&s)) {
+            Some(g) if g.len() >= 8 => run_list(ctx, "calib_compact_forms", g, |g: &CompactGolden, case| compact_golden_oracle(g, case)),
+            _ => calib_skipped(ctx, "calib_compact_forms", "fewer than 8 compact-notation goldens found in ligkern/lang.rs, or the source file is unreadable"),
+        }
         run_list(ctx, "calib_corpus_loops", corpus_files(), |c: &CorpusFile, case| corpus_oracle(c, case));
         let facts: Vec<usize> = (0..cmr10_facts().len()).collect();
         run_list(ctx, "calib_cmr10_facts", facts, |i: &usize, case| cmr_fact_oracle(*i, case));
@@ -1573,4 +2345,34 @@ pub fn run(ctx: &Ctx) {
     let mut words: Vec<Vec<u8>> = (0..n + n * n + n * n * n).map(cmr_word).collect();
     words.extend(["difficult", "waffle", "office", "shuffle", "fluffiest", "AVAVA", "``fi''", "a---k"].iter().map(|w| w.as_bytes().to_vec()));
     run_list(ctx, "cmr10_words", words, |w: &Vec<u8>, case| cmr_oracle(w, case));
+
+    // the real fonts of the corpus
+    if ctx.is_generate() || matches!(&ctx.mode, Mode::Replay { sub, .. } if sub == "corpus_words") {
+        let cases = if ctx.is_generate() { corpus_words_cases(ctx.tier.pick(3, 32)) } else { vec![] };
+        if ctx.is_generate() {
+            let skipped: BTreeMap<String, String> = all_corpus_tfms().into_iter().filter_map(|t| corpus_font(&t).as_ref().as_ref().err().map(|r| (t, r.to_string()))).collect();
+            ctx.extra("corpus_words", "files_outside_the_domain", serde_json::json!(skipped));
+        }
+        // evaluated on 16 threads beforehand; the engine then collects verdicts and classes
+        let pre: Vec<(Verdict, Vec<&'static str>, Option<String>)> = par_map(cases.len(), |i| {
+            let mut case = Case::default();
+            let v = match panics::catch(|| corpus_words_oracle(ctx, &cases[i], &mut case)) {
+                Ok(v) => v,
+                Err(p) => Verdict::Fail(format!("panic at {}: {}", p.site(), p.message)),
+            };
+            (v, case.classes, case.note)
+        });
+        let index: BTreeMap<(String, u32), usize> = cases.iter().enumerate().map(|(i, c)| ((c.tfm.clone(), c.window), i)).collect();
+        run_list(ctx, "corpus_words", cases, |c: &CorpusWordsCase, case| match index.get(&(c.tfm.clone(), c.window)) {
+            Some(i) if !case.replay => {
+                case.classes = pre[*i].1.clone();
+                case.note = pre[*i].2.clone();
+                pre[*i].0.clone()
+            }
+            _ => corpus_words_oracle(ctx, c, case),
+        });
+    }
+    // not part of the property, but a regression there should be visible
+    ctx.extra("ligkern", "obs_runs_whose_per_ligature_originals_or_boundary_bits_differ_from_tex", serde_json::json!(OBS_BITS_DIFFER.load(std::sync::atomic::Ordering::Relaxed)));
+    ctx.extra("ligkern", "obs_nodes_from_add_word_that_are_no_char_ligature_kern_or_discretionary", serde_json::json!(OBS_OTHER_NODES.load(std::sync::atomic::Ordering::Relaxed)));
 }
